@@ -96,6 +96,20 @@ def tile_grids(thorough=False, n=3):
     return cs
 
 
+def sb128_corners(thorough=False, n=3):
+    """128x128 superblocks with a picture whose width and height both end half-way through a superblock (w % 128 == h % 128 == 64):
+    the bottom-right superblock keeps a single 64x64 quadrant.  128x128 superblocks are only chosen by presets <= 4 (with TPL off or
+    above the 240p class) or on request"""
+    cs = []
+    for (w, h) in (((192, 192),) if not thorough else ((192, 192), (320, 192), (192, 320))):
+        for pr in ((4, 8) if not thorough else range(0, 9)):
+            for tpl in (0, 1):
+                for c in (("grad",) if not thorough else ("grad", "screen")):
+                    cs.append(mk("sb128corner:preset=%d,tpl=%d/%dx%d/%s" % (pr, tpl, w, h, c), w, h, n, c, enc_mode=pr, enable_tpl_la=tpl,
+                                 super_block_size=128))
+    return cs
+
+
 def not_mult64(a):
     return int(a.get("w", 64)) % 64 != 0 or int(a.get("h", 64)) % 64 != 0
 
